@@ -63,6 +63,16 @@ def guard_interval(b, cfg, tr, x_locals, target_bb):
             continue
         op = o['rv']['op']
         a, c = o['rv']['a'], o['rv']['b']
+
+        def as_const(x):
+            # a comparand held in a temporary (`_25 = const 0; Eq(move _23, move _25)`: slice patterns compare this way)
+            if x.get('k') == 'const':
+                return x
+            xo = tr.origin(x)
+            if xo['o'] == 'const' and not xo.get('p'):
+                return dict(xo['c'], k='const')
+            return x
+        a, c = as_const(a), as_const(c)
         if a.get('k') == 'const' and c.get('k') != 'const':
             # K op x  ==  x op' K
             a, c = c, a
@@ -137,14 +147,22 @@ def _sub_under_guard(b, cfg, tr, bi, t):
     """`x - K` (unsigned) where the dominating guards give x >= K: e.g. `c as u8 - b'0'` inside the arm for '0'..='9'."""
     a, c = t['ops']
     co = tr.origin(c)
+    if co['o'] == 'rvalue' and co['rv']['r'] == 'cast' and not co['p'] and co['rv'].get('kind', '').startswith('IntToInt') and \
+            co['rv']['a'].get('k') == 'const':
+        co = {'o': 'const', 'c': co['rv']['a']}        # `'0' as u32`
     k = const_value(co['c']) if co['o'] == 'const' else None
-    if not isinstance(k, int):
+    if isinstance(k, str) and len(k) == 1:
+        k = ord(k)
+    if not isinstance(k, int) or isinstance(k, bool):
         return None
     ao = tr.origin(a)
     src = a
-    # look through a widening/narrowing cast of the guarded value (char -> u8)
+    width_limit = None
+    # look through a widening/narrowing cast of the guarded value (char -> u8 keeps the value only below 256)
     if ao['o'] == 'rvalue' and ao['rv']['r'] == 'cast' and not ao['p']:
         src = ao['rv']['a']
+        to = ao['rv'].get('to', '')
+        width_limit = {'u8': 256, 'u16': 65536}.get(to, None if to in ('u32', 'u64', 'u128', 'usize') else 0)
     so = tr.origin(src)
     xs = {l for l, _ in tr.chain(src)}
     if so.get('l') is not None:
@@ -153,8 +171,9 @@ def _sub_under_guard(b, cfg, tr, bi, t):
         if tr.origin({'k': 'copy', 'l': l, 'p': []}).get('l') in xs and not tr.origin({'k': 'copy', 'l': l, 'p': []}).get('p'):
             xs.add(l)
     lo, hi, used = guard_interval(b, cfg, tr, xs, bi)
-    if lo >= k and hi is not None and hi < 256:
-        return 'the minuend is in [%d, %d] by the dominating guards, the subtrahend is %d' % (lo, hi, k)
+    fits = width_limit is None or (hi is not None and hi < width_limit)
+    if lo >= k and fits:
+        return 'the minuend is in [%d, %s] by the dominating guards, the subtrahend is %d' % (lo, hi, k)
     return None
 
 
@@ -256,8 +275,11 @@ def run(ctx):
                          '%s can panic on some input string: the parser must report an error instead' % n)
     if n_debug:
         rep.assume('%d panic-capable site(s) inside debug_assert!-family self-checks are not decided' % n_debug)
-    rep.floor('R1', 'panic-capable sites enumerated in the parser', n_sites, 3)
-    # a parser that assembles the matrix with a constructor has no index writes that could be out of bounds
+    # a parser that assembles the matrix with a constructor has no index writes that could be out of bounds (and may have no
+    # panic-capable site at all: nothing to enumerate is the best case, not a lost anchor)
+    has_ctor = any((callee_name(t2) or '').endswith('::new') and len(t2['args']) == 9 and 'Matrix' in t2['dest'].get('ty', '')
+                   for _, t2 in fo.calls())
+    rep.floor('R1', 'panic-capable sites enumerated in the parser', n_sites, 0 if has_ctor else 3)
     has_ctor = any((callee_name(t2) or '').endswith('::new') and len(t2['args']) == 9 and 'Matrix' in t2['dest'].get('ty', '')
                    for _, t2 in fo.calls())
     rep.floor('R2', 'matrix index writes in the parser', len(index_sites), 0 if has_ctor else 3)
@@ -308,6 +330,31 @@ def run(ctx):
              'the \'/\' and \'*\' operator arms have identical effects (harmless: the grammar has no \'*\')')
 
 
+def length_locals(b, tr, cont):
+    """Locals that hold the length of container `cont`: results of len() on it, and PtrMetadata / Len reads of a slice of it
+    (what `match v.as_slice() { [a, b] => .. }` compiles to)."""
+    from ..anchors import container_root
+    xs = []
+    for bi, t in b.calls():
+        if call_matches(t, 'Vec::<T, A>::len', '<impl [T]>::len') and t['args']:
+            o, _ = through(tr, t['args'][0])
+            if o.get('l') == cont or container_root(b, tr, t['args'][0]) == cont:
+                xs.append(t['dest']['l'])
+    for bb in b.blocks:
+        for s in bb['stmts']:
+            if s['s'] != 'assign' or s['place']['p']:
+                continue
+            rv = s['rv']
+            src = None
+            if rv['r'] == 'unop' and rv.get('op') == 'PtrMetadata' and 'l' in rv['a']:
+                src = rv['a']
+            elif rv['r'] == 'len' and 'place' in rv:
+                src = dict(rv['place'], k='copy')
+            if src is not None and container_root(b, tr, src) == cont:
+                xs.append(s['place']['l'])
+    return xs
+
+
 def _row_from_guarded_enumerate(b, cfg, tr, ro, use_bb):
     """row = .0 of the item yielded by Enumerate::next over vec.iter() where len(vec) was narrowed by dominating guards."""
     fp = field_path(ro.get('p', []))
@@ -334,13 +381,8 @@ def _row_from_guarded_enumerate(b, cfg, tr, ro, use_bb):
     if m:
         nfix = int(m.group(1))
         return nfix - 1 < 3, 'enumerate counter < %d, the length of the fixed-size array _%d' % (nfix, vec_l)
-    # len() calls on the same vec
-    xs = []
-    for bi, t in b.calls():
-        if call_matches(t, 'Vec::<T, A>::len', '<impl [T]>::len'):
-            o, _ = through(tr, t['args'][0])
-            if o.get('l') == vec_l:
-                xs.append(t['dest']['l'])
+    # len() calls on the same vec, and the slice-length reads a slice pattern compiles to
+    xs = length_locals(b, tr, vec_l)
     if not xs:
         return False, 'no length guard on the enumerated Vec'
     # copies of the length
